@@ -7,6 +7,7 @@ import Httoop.Ops.Auth
 import Httoop.Ops.StartLine
 import Httoop.Ops.Element
 import Httoop.Ops.Range
+import Httoop.Ops.Date
 /-
   Line protocol driver: one operation per input line, one canonical line out.
   `op arg …` — octet-string arguments are lower-case hex (`-` = empty), numbers decimal.
@@ -26,7 +27,7 @@ def opsPercent (op : String) (args : List String) : Option String :=
   | _, _ => none
 
 def runOp (op : String) (args : List String) : String :=
-  match opsPercent op args <|> Ops.opsUri op args <|> Ops.opsAuth op args <|> Ops.opsStartLine op args <|> Ops.opsElement op args <|> Ops.opsRange op args with
+  match opsPercent op args <|> Ops.opsUri op args <|> Ops.opsAuth op args <|> Ops.opsStartLine op args <|> Ops.opsElement op args <|> Ops.opsRange op args <|> Ops.opsDate op args with
   | some r => r
   | none => "bad-op"
 
